@@ -180,6 +180,13 @@ def _construct(ctx, inp, desc, irows, tmpdir):
         peek("after_vertices")
         if E:
             data.edges += build.rows(E, irows)
+            if desc["seed"] % 5 == 3:
+                # the caller flags the declared edges as hard edges himself (the attribute the library would otherwise create): the sides of the
+                # faces must still be completed
+                ctx.cls("raw:caller_created_hard_edges_attribute")
+                he = data.edges.create_attribute("hard_edges", bool)
+                for i in range(len(E)):
+                    he[i] = True
         peek("after_edges")
         if F:
             data.faces += build.rows(F, irows)
